@@ -544,3 +544,58 @@ def label_field_rule(m, rid):
                                             "the label must lie within columns 1-5 and column 6 must stay blank" if isfix else
                                             "the label must be followed by a blank", len(bad)), m.loc(f, tail[0]))
     return r
+
+
+# =================================================================================================
+# C19.R11: once the replace map is undone the text holds the literals again -- no blank squeezing / case folding after that
+# =================================================================================================
+FOLDERS = {"lower", "upper", "title", "capitalize", "swapcase", "casefold"}
+
+
+def no_fold_after_restore_rule(m, rid):
+    r = RuleResult(rid, "fparser1 never squeezes blanks out of, or case-folds, text on which the replace map has already been undone (character "
+                        "literals are back in it)")
+    r.floor = 20
+    stmt = m.key("Statement", BC)
+
+    def restored(n, names):
+        for x in ast.walk(n):
+            if isinstance(x, ast.Call) and ((isinstance(x.func, ast.Attribute) and x.func.attr == "apply_map") or
+                                            (isinstance(x.func, ast.Name) and x.func.id in ("apply_map",))):
+                return True
+            if isinstance(x, ast.Name) and x.id in names:
+                return True
+        return False
+    for k in sorted(m.classes):
+        c = m.classes[k]
+        if c["module"] not in ONE or not m.issub(k, stmt):
+            continue
+        for name in c["own"]:
+            f = m.method(k, name)
+            if f is None or f.cls_node is None or f.cls_node.name != c["name"]:
+                continue
+            if not any(isinstance(x, ast.Attribute) and x.attr == "apply_map" for x in ast.walk(f.node)):
+                continue
+            r.instances += 1
+            names = set()
+            for n in A.body_nodes(f.node):
+                if isinstance(n, ast.Assign) and isinstance(n.value, ast.Call) and \
+                        ((isinstance(n.value.func, ast.Attribute) and n.value.func.attr == "apply_map") or A.text(n.value.func) == "apply_map"):
+                    names |= {t.id for t in n.targets if isinstance(t, ast.Name)}
+            # a name also bound to the tokenised text elsewhere is not reliably "restored"
+            for n in A.body_nodes(f.node):
+                if isinstance(n, ast.Assign) and not (isinstance(n.value, ast.Call) and "apply_map" in A.text(n.value.func)):
+                    names -= {t.id for t in n.targets if isinstance(t, ast.Name)}
+            bad = None
+            for n in A.body_nodes(f.node):
+                if not (isinstance(n, ast.Call) and isinstance(n.func, ast.Attribute)):
+                    continue
+                squeeze = n.func.attr == "replace" and len(n.args) == 2 and A.const(n.args[0]) == " " and A.const(n.args[1]) == ""
+                if (squeeze or n.func.attr in FOLDERS) and restored(n.func.value, names):
+                    bad = n
+            r.ob(bad is None, "%s.%s" % (c["name"], name) if r.instances % 15 == 0 else None)
+            if bad is not None:
+                r.fail("%s.%s|fold-after-restore|%s" % (c["name"], name, bad.func.attr), "%s.%s applies `.%s(...)` to text on which the replace map was "
+                       "already undone (`%s`): blanks inside / the case of character literals in it are lost (`cnt(ichar(' ')) = 0` becomes "
+                       "`cnt(ichar('')) = 0`)" % (c["name"], name, bad.func.attr, A.text(bad)[:60]), m.loc(f, bad))
+    return r
